@@ -335,6 +335,9 @@ type caseT struct {
 }
 
 func (c caseT) String() string {
+	if len(c.setup) > 0 {
+		return fmt.Sprintf("%s %q after setup %q after=%q", c.kind, c.cmds, c.setup, c.after)
+	}
 	return fmt.Sprintf("%s %q after=%q", c.kind, c.cmds, c.after)
 }
 
@@ -474,6 +477,26 @@ func genCases(thorough bool) []caseT {
 	tm("[[rewriter]]\nold = 'a'\nnew = 'b'\nnot = '/(/'\nmax = -1\n")
 	tm("[[blacklist]]\nregex = '('\n")
 	tm("blacklist = ['regex (', 'prefix a', 'bogus']\n")
+	// accepted entries that turn a validated name into something unusual (empty, with a blank, only
+	// dots) in front of every kind of delivery stage: whatever re-encodes or parses the line again
+	// downstream (pickle, spool, grafanaNet record, ring) must cope with it
+	routes := []string{
+		"addRoute sendAllMatch r1  10.0.0.1:2003",
+		"addRoute sendAllMatch r1  10.0.0.1:2003 pickle=true",
+		"addRoute sendAllMatch r1  10.0.0.1:2003 spool=true",
+		"addRoute sendFirstMatch r1  10.0.0.1:2003 pickle=true spool=true",
+		"addRoute consistentHashing r1  10.0.0.1:2003 pickle=true  10.0.0.2:2003 pickle=true",
+		gn + " concurrency=2",
+	}
+	for _, r := range routes {
+		for _, m := range []string{"addRewriter /^b$/ ${9} -1", "addRewriter /^(a)\\.b$/ ${2} -1", "addRewriter /[a-z]/ ${9} -1", "addAgg sum regex=^agg\\.b(.*)$ $1 10 5", "addAgg sum regex=^(a)\\.(b)$ $3 10 5 dropRaw=true"} {
+			out = append(out, caseT{kind: "cmd", setup: []string{r}, cmds: []string{m}})
+		}
+		for _, doc := range []string{"[[rewriter]]\nold = 'b'\nnew = ''\nnot = ''\nmax = -1\n", "[[rewriter]]\nold = '.'\nnew = ' '\nnot = ''\nmax = -1\n", "[[rewriter]]\nold = '/^b$/'\nnew = ' '\nnot = ''\nmax = -1\n",
+			"[[aggregation]]\nfunction = 'sum'\nregex = '^a\\.(.*)'\nformat = ''\ninterval = 10\nwait = 5\n", "[[aggregation]]\nfunction = 'sum'\nregex = '^a\\.(.*)'\nformat = 'x y'\ninterval = 10\nwait = 5\n"} {
+			out = append(out, caseT{kind: "toml", setup: []string{r}, cmds: []string{doc}})
+		}
+	}
 	tm(fmt.Sprintf("[[route]]\nkey = 'g'\ntype = 'grafanaNet'\naddr = 'http://127.0.0.1:1/metrics'\napikey = 'k'\nschemasFile = '%s'\naggregationFile = '%s'\nconcurrency = 0\n", sch, agg))
 	tm(fmt.Sprintf("[[route]]\nkey = 'g'\ntype = 'grafanaNet'\naddr = 'http://127.0.0.1:1/metrics'\napikey = 'k'\nschemasFile = '%s'\naggregationFile = '%s'\nbufSize = 0\nflushMaxNum = 0\nconcurrency = 2\n", sch, agg))
 	return out
